@@ -282,6 +282,32 @@ func runJobctlScenarios(c *Ctx) {
 		c.Nontrivial()
 	})
 
+	// F21: once creation is disabled (kill timestamp), unrecorded tasks are adopted from the pod
+	// cache; a stale cached copy of a RECORDED task that is gone (force-deleted) must not be.
+	c.RunScenario("f21-stale-copy-adopted-after-kill", func() {
+		w := newJobctlSc(c, nil)
+		w.kubeletDead = true
+		w.flush()
+		w.work()          // creates the pod, records it
+		w.deliver("jobs") // pod events lag from here on
+		w.setKill(w.clk.Now().Unix() + 2)
+		w.deliver("jobs")
+		w.adv(5)
+		w.work() // kill sweep: graceful delete (the pod is found by the live GET), marked Killed
+		w.deliver("jobs")
+		w.adv(901)
+		w.work() // force delete: the pod is gone, ref finished Killed/ForceDeleted
+		w.deliver("jobs")
+		w.work()
+		w.deliver("pods") // the pod's creation event arrives only now: a stale, unfinished copy
+		w.work()
+		w.deliver("jobs")
+		w.work()
+		w.flush()
+		w.settle(3)
+		c.Nontrivial()
+	})
+
 	// F15: a task created but not recorded (status update conflict) is still killed with the Job.
 	c.RunScenario("f15-orphan-after-kill", func() {
 		w := newJobctlSc(c, nil)
